@@ -1,4 +1,4 @@
 ---------------------------- MODULE WindowTimeMC ----------------------------
 EXTENDS WindowTime
-ASSUME FirstDueMeaning
+ASSUME FirstDueMeaning(MaxTime)
 =============================================================================
